@@ -460,19 +460,20 @@ impl DSpec {
                     self.sets.iter().for_each(|(_, x)| x.tags(d, out));
                     conds(out);
                 }
+                // RETURNING precedes ORDER BY / LIMIT (SQLite's grammar, the only engine having both)
+                ret(out);
                 orders(out);
                 if let Some(l) = self.limit {
                     out.push(V::Int(l as i64));
                 }
-                ret(out);
             }
             Kind::Delete => {
                 conds(out);
+                ret(out);
                 orders(out);
                 if let Some(l) = self.limit {
                     out.push(V::Int(l as i64));
                 }
-                ret(out);
             }
         }
     }
